@@ -420,6 +420,8 @@ impl PersistBackend for FilePersist {
             }
         }
 
+        #[cfg(inputlayer_verif)]
+        crate::verif_hooks::point("persist.append.after_wal");
         // Add to buffer
         let should_flush = {
             let mut shards = self.shards.write();
@@ -442,6 +444,8 @@ impl PersistBackend for FilePersist {
             state.buffer.len() >= self.config.buffer_size
         };
 
+        #[cfg(inputlayer_verif)]
+        crate::verif_hooks::point("persist.append.after_buffer");
         // Flush if buffer is full
         if should_flush {
             self.flush(shard)?;
@@ -485,6 +489,8 @@ impl PersistBackend for FilePersist {
     }
 
     fn compact(&self, shard: &str, new_since: u64) -> StorageResult<()> {
+        #[cfg(inputlayer_verif)]
+        crate::verif_hooks::point("persist.compact.start");
         // Flush first to ensure all data is in batches
         self.flush(shard)?;
 
@@ -579,6 +585,8 @@ impl PersistBackend for FilePersist {
     }
 
     fn flush(&self, shard: &str) -> StorageResult<()> {
+        #[cfg(inputlayer_verif)]
+        crate::verif_hooks::point("persist.flush.start");
         let mut shards = self.shards.write();
         let state = shards
             .get_mut(shard)
